@@ -26,6 +26,9 @@ def case_list(name, label, cfg, tier):
     n = 6 if tier == 'quick' else 9
     cases = [(p, 6, 'disjoint') for p in domains.profiles(n)]
     cases += [(p, min(3, sse.kw_limit(name, cfg)), 'shared') for p in domains.profiles(3)]
+    # keywords of the maximal length the harness uses (SSE-1/SSE-2: param_l; the PRF-keyed schemes: several KiB, longer than any
+    # internal buffer or block): their absent neighbours differ from them only at the very end or by one byte more or less
+    cases += [(p, sse.kw_limit(name, cfg), 'disjoint') for p in domains.profiles(3)]
     lens = [v for v in domains.around(sse.special_lengths(name, cfg, tier)) if v <= 70]
     cases += [(p, 6, 'disjoint') for p in domains.boundary_profiles(lens)]
     out, seen = [], set()
